@@ -105,8 +105,10 @@ PROJ = ("let '(reads, pref, n, k, bridging, t, result) := c in ")
 CHECKS = {
     "L1cap": f"fun c => {PROJ} subset_ok reads result && cap_ok reads n k result",
     "L1max": f"fun c => {PROJ} maximal_ok reads n k result",
-    "L2cur": f"fun c => {PROJ} replay_ok PrefCurrent reads pref n k bridging t result",
-    "L2rep": f"fun c => {PROJ} replay_ok PrefRepaired reads pref n k bridging t result",
+    # the model of the code (after fix d6f31a2: preferred reads are removed from the main phase)
+    "L2": f"fun c => {PROJ} replay_ok PrefRepaired reads pref n k bridging t result",
+    # classification only: does the case behave like the pre-fix rule (preferred reads popped again)?
+    "old": f"fun c => {PROJ} replay_ok PrefCurrent reads pref n k bridging t result",
 }
 
 
@@ -215,7 +217,7 @@ def replay_of(rec):
 
 
 def report_direct(ctx, recs, failing):
-    cur_ok = set(range(len(recs))) - set(failing["L2cur"])
+    cur_ok = set(range(len(recs))) - set(failing["old"])
     for i in failing["L1cap"]:
         reads, k, pref, bridging, result, _ = recs[i]
         ctx.violation("readselect:cap", f"readselection returned {result} for k={k} pref={pref} bridging={bridging} reads={reads}: "
@@ -346,12 +348,11 @@ def run(ctx):
     for r in recs[:2] + recs[-2:]:
         ctx.sample({"reads": r[0], "k": r[1], "preferred": r[2], "bridging": r[3], "impl_selected": r[4],
                     "outer_iterations": len(r[5])})
-    all_cur, all_rep = not failing["L2cur"], not failing["L2rep"]
-    ctx.extra["model_rule_matching_code"] = "PrefCurrent" if all_cur else ("PrefRepaired" if all_rep else "none")
-    if not all_cur and not all_rep:
-        bad = failing["L2cur"] if len(failing["L2cur"]) <= len(failing["L2rep"]) else failing["L2rep"]
+    if failing["L2"]:
+        bad = failing["L2"]
+        ctx.extra["cases_matching_pre_fix_rule_only"] = len(set(bad) - set(failing["old"]))
         ctx.disagreements_checked += len(bad)
-        ctx.l2_disagreement("ReadSelect.replay_ok (decision trace and result of readselection = model)",
+        ctx.l2_disagreement("ReadSelect.replay_ok PrefRepaired (decision trace and result of readselection = model)",
                             [replay_of(recs[i]) for i in bad[:20]])
         if not failing["L1cap"] and not failing["L1max"]:
             # search: shrink the disagreeing cases w.r.t. the python oracle, then a wider seeded search
